@@ -118,5 +118,6 @@ struct GenOpts {
 };
 double gen_number(Rng &r, bool allow_nonfinite, bool plain);
 std::string gen_string(Rng &r, bool valid_utf8, bool ascii_only, size_t maxlen = 12);
+std::string gen_longkey(Rng &r, bool pointer_chars);
 std::string gen_key(Rng &r, const GenOpts &o);
 MVal *gen_value(Rng &r, const GenOpts &o, int depth = 0);
